@@ -3151,3 +3151,24 @@ func init() {
 	addDoc("C11", "R11h (= C12 R12b) pooled nodes are blank. R11i (= R04j) instance isolation of the readers. R11j (= C08 R08e) every CharData token is attached.")
 	addDoc("C15", "R15p (= C14 R14c) shared compiled expressions are used through cloning entry points only.")
 }
+
+func init() {
+	wrapRun("C03", func(c *core.Ctx) {
+		// K21 (= C12 R12e): a node that stays referenced after its release is released again: the pool hands one node to two
+		// owners, the tree becomes cyclic, and recycle / the checksum walk never return (stack overflow) — seed C03-16.
+		if c.CountRule("K21") == 0 {
+			importRules(c, "C12", map[string]string{"R12e": "K21"})
+			c.Floor("K21", 3, "reader references cleared on every release path")
+		}
+		// K22 (= the hash clauses of C13 R13a): two declarations that share a hash are served each other's cached value — a map
+		// where a string is expected — and reflect.Call panics (seed C03-18). Only the interning-key / hash-id / encoded-copy
+		// obligations are imported (the position-dependence finding F2 yields a wrong value, not a panic).
+		if c.CountRule("K22") == 0 {
+			importRulesIf(c, "C13", map[string]string{"R13a": "K22"}, func(o *core.Obligation) bool {
+				return o.Rule != "R13a" || strings.Contains(o.Construct, "interning") || strings.Contains(o.Construct, "interned hash") || strings.Contains(o.Construct, "computes hash") || strings.Contains(o.Construct, "deep copy")
+			})
+			c.Floor("K22", 3, "hash interning key / id / encoded copy")
+		}
+	})
+	addDoc("C03", "K21 (= C12 R12e) released nodes are not referenced any more (a double release makes the tree cyclic: stack overflow). K22 (= hash clauses of C13 R13a) declaration hashes are unique per encoding (a collision feeds reflect.Call a value of the wrong type).")
+}
